@@ -300,16 +300,129 @@ def prune(spec):
     return s
 
 
+def fresh_once(pid, seed, spec, schedule, prefix, tag, wd):
+    """Execute (prefix runs, then) the candidate in a brand-new interpreter; returns the outcome summary or None."""
+    import os
+    from .runner import run_workers
+    out = os.path.join(wd, "once-%s.json" % tag)
+    args = {"job": "once", "name": "once-" + tag, "prop": pid, "seed": seed, "spec": spec, "schedule": schedule, "prefix": prefix or [], "out": out, "wall_s": 600}
+    res, errors = run_workers([(args, 0)], 600)
+    try:
+        os.remove(out)
+        os.remove(out + ".args")
+    except OSError:
+        pass
+    return res[0] if res and res[0] is not None else None
+
+
+def once_job(args):
+    """(internal) worker side of fresh_once."""
+    from . import props
+    prop = props.get_prop(args["prop"])
+    for scen, index in args.get("prefix") or []:
+        try:
+            props.run_one(prop, prop.spec(scen, index, args["seed"]))
+        except Exception:  # noqa: BLE001 - the prefix only has to put the process into the same state
+            pass
+    out = props.run_one(prop, args["spec"], args.get("schedule"))
+    return {"name": args["name"], "violations": out["violations"], "digest": out["digest"], "schedule": out["schedule"]}
+
+
+def origin_prefix(origin, scenario, index):
+    """The runs the reporting worker had executed before this one, in its order."""
+    pre = []
+    for scen, total in origin["work"]:
+        rng = range(0, min(origin.get("det_sample", 48), total)) if origin.get("only_det") else range(origin["w"], total, origin["n"])
+        for i in rng:
+            if scen == scenario and i == index:
+                return pre
+            pre.append([scen, i])
+    return pre
+
+
 def job(args):
+    import os
     from . import props
     rep = args["report"]
-    prop = props.get_prop(args["prop"])
+    pid, seed = args["prop"], args.get("seed", 0)
+    prop = props.get_prop(pid)
+    wd = os.path.dirname(args["out"])
     orig = size(rep["spec"])
+    want = classes(rep["violations"])
     spec, schedule, out, used = minimise(prop, rep["spec"], rep["schedule"], rep["violations"], args.get("budget_runs", 2000), args.get("budget_s", 60))
-    if out is None:
-        rep["minimised"] = False
-        rep["note"] = "violation did not reproduce from the recorded run (harness nondeterminism?)"
-        return {"name": args["name"], "report": rep}
-    new = dict(rep, spec=spec, schedule=schedule, violations=out["violations"], digest=out["digest"], minimised=True,
-               original_size=orig, minimised_size=size(spec), minimiser_runs=used)
-    return {"name": args["name"], "report": new}
+    note = None
+    if out is not None:
+        f = fresh_once(pid, seed, spec, schedule, [], args["name"] + "a", wd)
+        if f is not None and classes(f["violations"]) & want:
+            new = dict(rep, spec=spec, schedule=schedule, violations=f["violations"], digest=f["digest"], minimised=True,
+                       original_size=orig, minimised_size=size(spec), minimiser_runs=used, prefix=[])
+            return {"name": args["name"], "report": new}
+        note = "the in-process minimum did not reproduce in a fresh interpreter: process-level state carried over between attempts"
+    # does the recorded run reproduce on its own in a fresh interpreter?
+    f = fresh_once(pid, seed, rep["spec"], rep["schedule"], [], args["name"] + "b", wd)
+    if f is not None and classes(f["violations"]) & want:
+        # shrink coarsely, every attempt in its own interpreter
+        import copy
+        cur, cur_s, cur_f, tries = rep["spec"], rep["schedule"], f, 0
+        progress = True
+        while progress and tries < 60:
+            progress = False
+            cands = []
+            for ti in range(len(cur["tasks"]) - 1, -1, -1):
+                if len(cur["tasks"]) > 1:
+                    c = copy.deepcopy(cur)
+                    del c["tasks"][ti]
+                    if len(c["tasks"]) == 1:
+                        c.pop("force_kernel", None)
+                    cands.append((c, project_schedule(cur_s, [i for i in range(len(cur["tasks"])) if i != ti]) if len(c["tasks"]) > 1 else None))
+            for ti in range(len(cur["tasks"])):
+                for oi in range(len(cur["tasks"][ti]["ops"]) - 1, -1, -1):
+                    if len(cur["tasks"][ti]["ops"]) > 1:
+                        c = drop_op(cur, ti, oi)
+                        if c is not None:
+                            cands.append((c, cur_s))
+            for c, cs in cands:
+                tries += 1
+                g = fresh_once(pid, seed, c, cs, [], args["name"] + "c", wd)
+                if g is not None and classes(g["violations"]) & want:
+                    cur, cur_s, cur_f, progress = c, g["schedule"] if g["schedule"] is not None else cs, g, True
+                    break
+                if tries >= 60:
+                    break
+        cur = prune(cur)
+        g = fresh_once(pid, seed, cur, cur_s, [], args["name"] + "d", wd)
+        if g is None or not (classes(g["violations"]) & want):
+            cur, cur_s, g = rep["spec"], rep["schedule"], f
+        new = dict(rep, spec=cur, schedule=cur_s, violations=g["violations"], digest=g["digest"], minimised=cur is not rep["spec"],
+                   original_size=orig, minimised_size=size(cur), minimiser_runs=used + tries, prefix=[], note=note)
+        return {"name": args["name"], "report": new}
+    # history-dependent: needs the runs the worker executed before it
+    origin = rep.get("origin")
+    if origin:
+        pre = origin_prefix(origin, rep["scenario"], rep["index"])
+        for k in (1, 8, 64, 512, len(pre)):
+            sub = pre[-k:] if k < len(pre) else pre
+            g = fresh_once(pid, seed, rep["spec"], rep["schedule"], sub, args["name"] + "e", wd)
+            if g is not None and classes(g["violations"]) & want:
+                # shrink the prefix: keep halving while one half alone still reproduces
+                tries = 0
+                while len(sub) > 1 and tries < 24:
+                    h = len(sub) // 2
+                    shrunk = False
+                    for cand in (sub[h:], sub[:h]):
+                        tries += 1
+                        g2 = fresh_once(pid, seed, rep["spec"], rep["schedule"], cand, args["name"] + "f", wd)
+                        if g2 is not None and classes(g2["violations"]) & want:
+                            sub, g, shrunk = cand, g2, True
+                            break
+                    if not shrunk:
+                        break
+                new = dict(rep, violations=g["violations"], digest=g["digest"], minimised=False, prefix=sub, original_size=orig,
+                           note="history-dependent: reproduces only after the %d preceding runs of the same worker process (module-level state); replay executes them first" % len(sub))
+                return {"name": args["name"], "report": new}
+            if k >= len(pre):
+                break
+    rep["minimised"] = False
+    rep["note"] = "violation did not reproduce from the recorded run in a fresh interpreter, even after the worker's preceding runs"
+    rep["prefix"] = []
+    return {"name": args["name"], "report": rep}
